@@ -550,6 +550,37 @@ impl St {
                 Ok(pep508_rs::MarkerValue::Extra) => S::a("extra"),
                 _ => S::a("err"),
             },
+            "reqrel" => {
+                let a = Requirement::<VerbatimUrl>::from_str(&l[1].string());
+                let b = Requirement::<VerbatimUrl>::from_str(&l[2].string());
+                match (a, b) {
+                    (Ok(a), Ok(b)) => {
+                        let h = |t: &Requirement<VerbatimUrl>| {
+                            let mut s = std::collections::hash_map::DefaultHasher::new();
+                            t.hash(&mut s);
+                            s.finish()
+                        };
+                        let c = |o: std::cmp::Ordering| match o {
+                            std::cmp::Ordering::Less => "Lt",
+                            std::cmp::Ordering::Equal => "Eq",
+                            std::cmp::Ordering::Greater => "Gt",
+                        };
+                        let urls = match (&a.version_or_url, &b.version_or_url) {
+                            (Some(pep508_rs::VersionOrUrl::Url(x)), Some(pep508_rs::VersionOrUrl::Url(y))) => {
+                                let hu = |t: &VerbatimUrl| {
+                                    let mut s = std::collections::hash_map::DefaultHasher::new();
+                                    t.hash(&mut s);
+                                    s.finish()
+                                };
+                                S::l(vec![S::bool(x == y), S::a(c(x.cmp(y))), S::bool(hu(x) == hu(y)), S::bool(x.to_url() == y.to_url())])
+                            }
+                            _ => S::a("none"),
+                        };
+                        S::tag("ok", vec![S::bool(a == b), S::a(c(a.cmp(&b))), S::a(c(b.cmp(&a))), S::bool(h(&a) == h(&b)), urls])
+                    }
+                    _ => S::a("err"),
+                }
+            }
             "ping" => S::a("pong"),
             _ => S::tag("unknown-op", vec![S::a(op)]),
         }
